@@ -5,6 +5,7 @@ import (
 	"go/token"
 	"go/types"
 	"os"
+	"sort"
 	"strings"
 
 	"pdfverif/internal/core"
@@ -36,8 +37,8 @@ func runC15(c *core.Ctx) {
 	}()
 	defer ruleRealParse(c, "C15-R8", [2]string{cp, "parseNumber"})
 	defer ruleNoDeadFieldStores(c)
-	ruleClassTable(c, "C15-R1", "pdf")
-	ruleClassTable(c, "C15-R1", cp)
+	c.Guard(func() { ruleClassTable(c, "C15-R1", "pdf") })
+	c.Guard(func() { ruleClassTable(c, "C15-R1", cp) })
 	c.Check("C15-R1", "class-tables-equal", "the object scanner and the content scanner classify every byte identically", func(o *core.Ob) {
 		a := classTable(c.Prog, "pdf")
 		b := classTable(c.Prog, cp)
@@ -48,9 +49,9 @@ func runC15(c *core.Ctx) {
 			}
 		}
 	})
-	ruleNameEscape(c, "C15-R2", cp)
-	ruleStringEscapes(c, "C15-R2", cp)
-	ruleHexString(c, "C15-R2", cp)
+	c.Guard(func() { ruleNameEscape(c, "C15-R2", cp) })
+	c.Guard(func() { ruleStringEscapes(c, "C15-R2", cp) })
+	c.Guard(func() { ruleHexString(c, "C15-R2", cp) })
 
 	c.Check("C15-R3", cp+".Operator.Format/names", "names are written through the escaping formatter only: no value of type pdf.Name is converted to bytes and written raw", func(o *core.Ob) {
 		pkg := c.Prog.Pkg(cp)
@@ -93,9 +94,37 @@ func runC15(c *core.Ctx) {
 			seq = append(seq, quote(l.S))
 			o.At(fn.Site(l.Call, "writes "+quote(l.S)))
 		}
-		want := []string{`"\n"`, `"BI\n"`, `" "`, `"\n"`, `"ID\n"`, `"\nEI\n"`, `" "`, `"\n"`}
-		if strings.Join(seq, ",") != strings.Join(want, ",") {
-			o.Fail("framing literals are %v, want %v", seq, want)
+		// per clause of the switch over the operator: the clauses exclude each other, so the order
+		// in which they are written does not matter; within a clause the order is the output order
+		clauseOf := func(n ast.Node) *ast.CaseClause {
+			var best *ast.CaseClause
+			ast.Inspect(fn.Decl.Body, func(m ast.Node) bool {
+				if cc, ok := m.(*ast.CaseClause); ok && cc.Pos() <= n.Pos() && n.End() <= cc.End() && best == nil {
+					best = cc // the outermost clause that holds the write
+				}
+				return true
+			})
+			return best
+		}
+		groups := map[*ast.CaseClause][]string{}
+		var order []*ast.CaseClause
+		for _, l := range lits {
+			cc := clauseOf(l.Call)
+			if _, seen := groups[cc]; !seen {
+				order = append(order, cc)
+			}
+			groups[cc] = append(groups[cc], quote(l.S))
+		}
+		var got []string
+		for _, cc := range order {
+			got = append(got, strings.Join(groups[cc], ","))
+		}
+		sort.Strings(got)
+		want := []string{`"\n"`, `"BI\n"," ","\n","ID\n","\nEI\n"`, `" ","\n"`}
+		sort.Strings(want)
+		flat := []string{`"\n"`, `"BI\n"`, `" "`, `"\n"`, `"ID\n"`, `"\nEI\n"`, `" "`, `"\n"`}
+		if strings.Join(got, " | ") != strings.Join(want, " | ") && strings.Join(seq, ",") != strings.Join(flat, ",") {
+			o.Fail("framing literals are %v (per clause: %s), want per clause %s", seq, strings.Join(got, " | "), strings.Join(want, " | "))
 		}
 		// every pdf.Format call uses OptContentStream
 		fc := callVertices(g, "pdf.Format")
